@@ -31,7 +31,8 @@ func init() {
 			}
 			return 40000
 		}}},
-		Run: run,
+		Run:   run,
+		Setup: func(c *core.Ctx) { c.State = &aliasState{} },
 		Floors: func(t string) map[string]int64 {
 			return map[string]int64{"coord.nan_payload": 100, "coord.neg_zero": 100, "nested.depth>=2": 100, "empty.member": 100, "mixed_order.decoded": 1000, "path.len>=255": 50,
 				"type.Point": 10, "type.MultiPoint": 10, "type.LineString": 10, "type.MultiLineString": 10, "type.Polygon": 10, "type.MultiPolygon": 10, "type.GeometryCollection": 10}
@@ -219,6 +220,12 @@ func run(c *core.Ctx, idx int) {
 			c.Violate("encode-error:"+name, fmt.Sprintf("wkb.Encode(%s,%s) error: %v", name, oname, err), detail)
 			return
 		}
+		if st, ok := c.State.(*aliasState); ok {
+			if st.prev != nil && !bytes.Equal(st.prev, st.prevCopy) {
+				c.Violate("encode-output-mutated", "the bytes returned by an earlier wkb.Encode call changed after a later call", map[string]interface{}{"earlier": enchex.EncodeToString(st.prevCopy), "now": enchex.EncodeToString(st.prev)})
+			}
+			st.prev, st.prevCopy = enc, append([]byte(nil), enc...)
+		}
 		if !bytes.Equal(enc, ref) {
 			off := 0
 			for off < len(enc) && off < len(ref) && enc[off] == ref[off] {
@@ -292,3 +299,5 @@ func run(c *core.Ctx, idx int) {
 		}
 	})
 }
+
+type aliasState struct{ prev, prevCopy []byte }
